@@ -105,8 +105,21 @@ def rule_shared(rep: Report, rid="C15.shared") -> None:
                 nattr += 1
                 mutable = isinstance(val, (ast.List, ast.Dict, ast.Set, ast.ListComp, ast.DictComp)) or \
                     (isinstance(val, ast.Call) and dotted(val.func) in ("list", "dict", "set", "deque", "defaultdict", "collections.deque", "collections.defaultdict"))
-                rep.ob(rid, f"class attribute {c.name}.{name} is an immutable value", not mutable, file=m.rel, line=val.lineno, function=c.qualname,
-                       expected="constant / compiled pattern", found=unparse(val)[:80])
+                mutated = []
+                if mutable:
+                    for fi2 in _pkg_functions():
+                        for n2 in ast.walk(fi2.node):
+                            tgt = None
+                            if isinstance(n2, ast.Call) and isinstance(n2.func, ast.Attribute) and n2.func.attr in Interp.MUTATORS:
+                                tgt = n2.func.value
+                            elif isinstance(n2, ast.Subscript) and isinstance(n2.ctx, (ast.Store, ast.Del)):
+                                tgt = n2.value
+                            elif isinstance(n2, ast.AugAssign):
+                                tgt = n2.target
+                            if isinstance(tgt, ast.Attribute) and tgt.attr == name:
+                                mutated.append(f"{fi2.qualname}:{n2.lineno}")
+                rep.ob(rid, f"class attribute {c.name}.{name} is never modified (a constant, or a table that is only read)", not mutated, file=m.rel, line=val.lineno,
+                       function=c.qualname, expected="no in-place change of a class-level object", found=mutated or "read-only")
             # class attributes that instances mutate in place: read as self.X then mutated, without instance assignment
             inst_assigned = set()
             for fi in c.methods.values():
